@@ -11,7 +11,7 @@ import json
 from vlib import common, histcheck, miri
 
 MODULE = "TriompheModel.Props.C09"
-EXTRA = ["TriompheModel.Props.Gates", "TriompheModel.WM.Consume", "TriompheModel.Props.Monitor", "TriompheModel.Props.ApiShape", "TriompheModel.Props.C09Programs", "TriompheModel.WM.OwnershipExUnwrap"]
+EXTRA = ["TriompheModel.Props.Gates", "TriompheModel.WM.Consume", "TriompheModel.Props.Monitor", "TriompheModel.Props.ApiShape", "TriompheModel.Props.C09Programs", "TriompheModel.WM.OwnershipConsume", "TriompheModel.WM.OwnershipExUnwrap"]
 TAGS = ["C09"]
 WEIGHTS = dict(tryUnwrap=18, unwrapOrClone=16, intoInner=8, tryUnique=16, clone=18, conv=16, create=16, drop=8)
 PROGRAMS_QUICK = ["try_unwrap_vs_drop", "sole_owner_gates"]
